@@ -316,7 +316,7 @@ theorem pinv_cleanup (s : Sys) (self : Cid) (hi : PauseInv (some self) s) : Paus
   · exact fin _ (sp_say _ (sp_tell _ _ _ _ h1))
   · exact fin _ (sp_say _ h1)
 
-theorem pinv_handleRestart (s : Sys) (self : Cid) (hi : PauseInv (some self) s) : PauseInv none (handleRestart s self) := by
+theorem pinv_handleRestart (s : Sys) (self : Cid) (hs : self < s.n) (hi : PauseInv (some self) s) : PauseInv none (handleRestart s self) := by
   unfold handleRestart
   simp only
   have h1 := pinv_sameP (sameP_upd s self (fun x => { x with behaviors := [x.script] }) (fun _ => rfl)) hi
@@ -334,9 +334,16 @@ theorem pinv_handleRestart (s : Sys) (self : Cid) (hi : PauseInv (some self) s) 
   split
   · exact pinv_sameP (sameP_say _ _) (settle (fun x => { x with zombie := true, paused := false }) (fun _ => Or.inr rfl))
   · have h2 := settle (fun x => { x with restarting := none, state := .running, inc := x.inc + 1 }) (fun _ => Or.inl (by simp))
-    apply pinv_sameP (sameP_say _ _)
-    apply pinv_upd none _ self (fun x => { x with paused := false }) (fun _ _ _ _ => rfl)
-    exact pinv_sameP (sameP_tell _ _ _ _ _) h2
+    split
+    · -- repaired: the new incarnation's OnLaunch runs right here; `self` is running
+      have h3 : PauseInv none (say (upd (upd (upd s self (fun x => { x with behaviors := [x.script] })) self
+          (fun x => { x with restarting := none, state := .running, inc := x.inc + 1 })) self (fun x => { x with paused := false }))
+          s!"restarted:{self}") :=
+        pinv_sameP (sameP_say _ _) (pinv_upd none _ self (fun x => { x with paused := false }) (fun _ _ _ _ => rfl) h2)
+      exact (pinv_execRecover none _ self _ _ _ h3 hs (fun _ => by simp)).1
+    · apply pinv_sameP (sameP_say _ _)
+      apply pinv_upd none _ self (fun x => { x with paused := false }) (fun _ _ _ _ => rfl)
+      exact pinv_sameP (sameP_tell _ _ _ _ _) h2
 
 theorem pinv_markKilled (s : Sys) (self : Cid) (hi : PauseInv none s) :
     PauseInv (some self) (upd s self (fun x => { x with state := .killed })) := by
@@ -385,7 +392,10 @@ theorem pinv_onKilled (s : Sys) (self : Cid) (beh : Nat) (cur : Env) (who : Cid)
       | true =>
         simp only [if_true]
         have h3 := pinv_execSwallow (some self) _ self beh { cur with sys := true, msg := .onKilled self } (.onKilled self) h2 hs2
-        exact pinv_handleRestart _ self (pinv_sameP (sameP_clearJobs _ _) h3.1)
+        refine pinv_handleRestart _ self ?_ (pinv_sameP (sameP_clearJobs _ _) h3.1)
+        have : self < (execSwallow (upd s1 self (fun x => { x with state := .killed })) self beh
+            { cur with sys := true, msg := .onKilled self } (.onKilled self)).n := Nat.lt_of_lt_of_le hs2 h3.2.1
+        unfold clearJobs; exact this
       | false =>
         simp only [Bool.false_eq_true, if_false]
         have h3 := pinv_execRecover (some self) _ self beh { cur with sys := true, msg := .onKilled self } (.onKilled self) h2 hs2
